@@ -183,6 +183,10 @@ def basicExprs (σ : List Scope) : List Expr → B → Acc → B × Acc
     let r := basicExpr σ e b a
     basicExprs σ es r.1 r.2
 
+/-- The conditional section of a try's `else` block is keyed by the `Try` node itself (the first statement of the block may
+be an `if`, which keys a conditional section of its own). -/
+def elseRep (i : Nat) (orelse : List Stmt) : Option Nat := if orelse.isEmpty then none else some i
+
 /-- An optional part of `visit_Try` keyed by `rep` (`else` block / handlers / `finally` block): `pre`, visit, `post`. -/
 def optSection (rep : Option Nat) (pre post : Nat → B → B) (visit : Nat → B → Acc → B × Acc) (r : B × Acc) : B × Acc :=
   match rep with
@@ -285,7 +289,7 @@ def visitStmt (σ : List Scope) : Stmt → B → Acc → B × Acc
       let σ' := Scope.try_ i (!final.isEmpty) (handlerIds handlers) :: σ
       let r := visitStmts σ' body b a
       -- the orelse is an optional continuation of the body (a cond section with one real branch)
-      let r := optSection (orelse.head?.map Stmt.id)
+      let r := optSection (elseRep i orelse)
         (fun k b => (b.enterCondSection k).newCondBranch k) (fun k b => (b.newCondBranch k).exitCondSection k)
         (fun _ => visitStmts σ' orelse) r
       -- the lexical scope of the try ends HERE, before the handlers
